@@ -1,6 +1,7 @@
 import Driver.Slots
 import Driver.Sched
 import Driver.Report
+import Driver.Spell
 /-!
 Line-protocol driver: one request per stdin line, one answer per stdout line.
 Unknown or ill-formed requests are answered `bad-op` (never defaulted).
@@ -10,7 +11,8 @@ open SPD
 
 def handlers : List (List String × (List String → String)) := [
   (slotsCmds, handleSlots),
-  (reportCmds, handleReports)
+  (reportCmds, handleReports),
+  (spellCmds, handleSpell)
 ]
 
 def dispatch (toks : List String) : String :=
